@@ -199,6 +199,12 @@ def estimate_mixture_weight(
             eps=1e-10,
             eps_style='where',
         )
+        if -2 in [
+            axis % affiliation.ndim - affiliation.ndim
+            for axis in np.atleast_1d(weight_constant_axis)
+        ]:
+            # Tied over the classes: each of the K classes gets an equal share.
+            weight = weight / affiliation.shape[-2]
 
     return weight
 
